@@ -130,6 +130,15 @@ def reset_hits():
     del HIT_LOG[:]
 
 
+# State outside the workflow that a task function may read (an "impure" task): with caching
+# switched off a run must see its current value, because nothing may be replayed.
+EPOCH = [0]
+
+
+def epoch():
+    return EPOCH[0]
+
+
 # Simulated clock for file mtimes (generated file-writing tasks stamp their outputs with it).
 CLOCK = [1_700_000_000.0]
 
